@@ -9,7 +9,7 @@ EXTENDS Integers, Sequences, TLC, Json, IOUtils
 TraceLog == ndJsonDeserialize(IOEnv.TRACE)
 VARIABLES l, m
 vars == <<l, m>>
-M0 == [committed |-> 0, atflush |-> 0, atstop |-> -1, ycommitted |-> 0, yjoined |-> -1, yowed |-> 0, ok |-> TRUE, why |-> ""]
+M0 == [cache |-> 2, committed |-> 0, atflush |-> 0, atstop |-> -1, ycommitted |-> 0, yjoined |-> -1, yowed |-> 0, ok |-> TRUE, why |-> ""]
 Fail(x, why) == IF x.ok THEN [x EXCEPT !.ok = FALSE, !.why = why] ELSE x
 Check(x, cond, why) == IF cond THEN x ELSE Fail(x, why)
 MStep(x, e) ==
@@ -18,6 +18,11 @@ MStep(x, e) ==
     [] e.e = "flushed" -> Check(Check(x, e.delivered >= x.atflush,
                                       "flush_log() returned while statements the caller logged before it were unwritten"),
                                 e.visible, "flush_log() returned but the sink writes are not ordered before the caller (data race on the destination)")
+    [] e.e = "bstep" /\ "cache" \in DOMAIN e ->
+         \* the backend's cache lost a context: the exited thread's context was reclaimed - everything it committed must have been written
+         IF e.cache < x.cache /\ e.delivered_y < e.ycommitted
+         THEN Fail([x EXCEPT !.cache = e.cache], "thread-context of an exited thread reclaimed while statements it committed were unwritten")
+         ELSE [x EXCEPT !.cache = e.cache]
     [] e.e = "removed" -> Check(Check(x, e.sinkdead /\ e.loggers = 0,
                                       "remove_logger_blocking() returned before the removal had completed (logger still registered or its sink alive)"),
                                 e.visible, "remove_logger_blocking() returned but the destruction of the sink is not ordered before the caller")
